@@ -203,6 +203,22 @@ def check_props(prop_file):
             "theorems": theorems, "declared": names, "log": (out + err)[-4000:]}
 
 
+def coqchk(prop_file, timeout=1500):
+    """Independent re-check of Props/<prop_file>.vo and everything it depends on; axioms it relies on."""
+    p = subprocess.run(["timeout", str(timeout), "coqchk", "-silent", "-o", "-Q", "theories", "TP",
+                        "TP.Props." + prop_file], cwd=COQDIR, capture_output=True, text=True)
+    log = p.stdout + p.stderr
+    m = re.search(r"\* Axioms:(.*?)\n\s*\n\* Constants/Inductives relying on type-in-type:(.*?)\n\s*\n"
+                  r"\* Constants/Inductives relying on unsafe \(co\)fixpoints:(.*?)\n\s*\n"
+                  r"\* Inductives whose positivity is assumed:(.*?)\n", log, re.S)
+    if p.returncode != 0 or not m:
+        return {"ok": False, "summary": "coqchk failed (rc %d)" % p.returncode, "log": log}
+    ax, tit, unsafe, pos = [" ".join(x.split()) for x in m.groups()]
+    ok = tit == "<none>" and unsafe == "<none>" and pos == "<none>"
+    return {"ok": ok, "log": log,
+            "summary": "axioms: %s; type-in-type: %s; unsafe fixpoints: %s; assumed positivity: %s" % (ax, tit, unsafe, pos)}
+
+
 # ----------------------------------------------------------------------------- running cases in Coq
 
 def eval_cases(shards, tag, header, timeout=900):
@@ -423,6 +439,13 @@ def standard_proof_obligations(rep, prop_file, model_targets=()):
         rep.trusted.append(f"{t['name']}: " + ("Closed under the global context" if closed
                                                 else "Axioms: " + "; ".join(t["assumptions"])))
     rep.obligation(f"print-assumptions:{prop_file}", info["ok"], "" if info["ok"] else info["log"][-800:])
+    if rep.tier == "thorough":
+        ck = coqchk(prop_file)
+        rep.obligation(f"coqchk:TP.Props.{prop_file}", ck["ok"], ck["summary"][:300])
+        rep.trusted.append("coqchk -o TP.Props.%s: %s" % (prop_file, ck["summary"]))
+        if not ck["ok"]:
+            rep.broken(f"coqchk:{prop_file}", ck["log"][-1500:])
+            return False, model_ok
     rep.trusted += ["Coq 8.16.1 kernel + vm_compute (no native_compute)",
                     "correspondence harness (generators, realizer, reifier, canonicalisation) and CPython 3.12"]
     if not info["ok"]:
